@@ -32,8 +32,9 @@ theorem unmarshalNode_succ (s : Schema) (f : Nat) (ty : LtType) (cur : V) (attrs
 theorem unmarshal_ptr (s : Schema) (f : Nat) (ty t' : LtType) (cur : V) (attrs : List (String × List Char))
     (kids : List Node) (hk : kindOf s 8 ty = .ptr t') :
     unmarshalNode s (f + 1) ty cur attrs kids =
-      (unmarshalNode s f t' (match cur with | .ptr v => v | _ => zeroOf s 8 t') attrs kids).map V.ptr := by
+      (unmarshalNode s f t' (ptrTarget s t' cur) attrs kids).map V.ptr := by
   rw [unmarshalNode_succ, hk]
+  cases cur <;> rfl
 
 /-- a leaf destination: custom parser, or a plain scalar -/
 theorem unmarshal_leaf (s : Schema) (f : Nat) (ty : LtType) (cur : V) (attrs : List (String × List Char))
@@ -55,10 +56,10 @@ theorem unmarshal_leaf (s : Schema) (f : Nat) (ty : LtType) (cur : V) (attrs : L
 theorem unmarshal_slice (s : Schema) (f : Nat) (ty t' : LtType) (cur : V) (attrs : List (String × List Char))
     (kids : List Node) (hk : kindOf s 8 ty = .slice t') (hc : customU s ty = none) :
     unmarshalNode s (f + 1) ty cur attrs kids =
-      (unmarshalNode s f t' (zeroOf s 8 t') attrs kids).map fun v =>
-        V.list ((match cur with | .list xs => xs | _ => []) ++ [v]) := by
+      (unmarshalNode s f t' (zeroOf s 8 t') attrs kids).map fun v => V.list (itemsOf cur ++ [v]) := by
   rw [unmarshalNode_succ, hk]
   simp only [hc]
+  cases cur <;> rfl
 
 theorem unmarshal_struct (s : Schema) (f : Nat) (ty : LtType) (n : String) (fields : List LtField) (fs0 : List V)
     (attrs : List (String × List Char)) (kids : List Node)
